@@ -282,4 +282,4 @@ def run(ctx: vlib.Ctx):
     if ctx.thorough:
         cli_roundtrip(ctx, rng.sample(accepted_texts, min(len(accepted_texts), 150)), findings)
     ctx.assumptions = ["Env (NFC, Unicode classes, repr(float)) supplied per case from the running CPython",
-                       "proved for all inputs of the class: the document-level round trip (emit -> strict read -> same document -> same bytes) for flat documents and arbitrarily nested blocks with scalar values (Props/C01roundtrip, C01tree); for documents with comments, META, sections, lists, zones it is an open proof target decided by the exhaustive/seeded correspondence and the oracle on the real code"]
+                       "proved for all inputs of each class (the Props modules listed under coverage.theorems): the document-level round trip (emit -> strict read -> same document -> same bytes) for flat documents, nested blocks, META + trees, sections, expressions, list values, commented trees; mixtures outside the listed classes, floats inside documents, inline maps, holographic values, zones in lists/META are decided by the exhaustive/seeded correspondence and the oracle on the real code"]
